@@ -16,7 +16,7 @@ TReset == IsEv("Reset") /\ login' = "none" /\ nsess' = 0 /\ pin' = InitPin /\ op
 TInv   == IsEv("Inv") /\ Inv(E.t, E.c, Arg("a"), Arg("b")) /\ UNCHANGED bn
 TLin   == l <= Len(T) /\ (\E t \in Threads : Lin(t)) /\ UNCHANGED <<l, bn>>
 TRet   == IsEv("Ret") /\ Ret(E.t, E.c, E.rv, Arg("st")) /\ UNCHANGED bn
-          /\ (PurgedByLogout(E.t, E.c, E.rv) => PrintT(<<"DEV", bn, "EarlyVisible">>))
+          /\ (PurgedByLogout(E.t, E.c, E.rv) => PrintT(<<"DEV", bn, "LogoutSplit">>))
 TFinal == IsEv("Final") /\ Final(E.st, E.pin) /\ UNCHANGED <<vars, bn>>
 
 TInit == Init /\ l = 1 /\ bn = 0 /\ TLCSet(1, 1)
